@@ -536,3 +536,16 @@ pub fn run_spec_probed(spec: &ChainSpec, dens: LogDensity, init: &[f64], ndraws:
     };
     Some((h, probes))
 }
+
+impl AnySettings {
+    pub fn set_num_chains(&mut self, n: usize) {
+        match self {
+            AnySettings::DiagNuts(s) => s.num_chains = n,
+            AnySettings::LowRankNuts(s) => s.num_chains = n,
+            AnySettings::FlowNuts(s) => s.num_chains = n,
+            AnySettings::DiagMclmc(s) => s.num_chains = n,
+            AnySettings::LowRankMclmc(s) => s.num_chains = n,
+            AnySettings::FlowMclmc(s) => s.num_chains = n,
+        }
+    }
+}
